@@ -213,6 +213,7 @@ fn main() {
         // R0: cfg evaluation
         let mut cfgv = cfg::CfgEval { features: &features, fired: 0 };
         cfgv.visit_file_mut(&mut file);
+        rules::rename_raw_file(&mut file);
         let kind = s(item, "kind").expect("kind");
         let mut fired: Vec<String> = vec![];
         if cfgv.fired > 0 {
